@@ -38,11 +38,13 @@ RULE = ("values built AT the layout thresholds: all-simple dicts and lists whose
         "colours, a no_color configuration) x no_color= (True; False / omitted where the configuration is no-colour by "
         "itself) x global colours configuration (as found, other colours, a no_color one; then also str()/repr() of "
         "PPWrap and pp(v) with default arguments), on five values with keys, keywords, numbers, strings (one-line, "
-        "nested, wrapped list, random) in both modes (quick: 2100 cases; the printer kinds made per case are crossed "
-        "with the default global configuration only; thorough: the full product on 15 values), and a configuration "
-        "drawn at random on every 4th case of the other kinds; the whole battery of consumption orders runs under the "
-        "configuration, followed by the plain default call and, for a changed global configuration, by a result "
-        "consumed after the former configuration is back.  "
+        "nested, wrapped list, random) in both modes (quick: 2100 renderings-with-battery in 135 cases -- one case = one "
+        "value, one printer object, one global configuration and up to 16 (palette=, colors_conf=, no_color=) "
+        "combinations rendered one after the other in one process, so that the palette caches are shared; the printer "
+        "kinds made per case are crossed with the default global configuration only; thorough: the full product on 15 "
+        "values, 9810 renderings), and one configuration drawn at random on every 4th case of the other kinds; the "
+        "whole battery of consumption orders runs under each configuration, followed by the plain default call and, "
+        "for a changed global configuration, by a result consumed after the former configuration is back.  "
         "Non-trivial = distinct value whose top level is a non-empty container.")
 TRUSTED_BASE = [
     "json.loads / ast.literal_eval interpret the atoms the reader of the theorems leaves opaque: str(int)/str(float) "
@@ -1421,7 +1423,7 @@ LEVEL_TEXT = ("Full (about the model, unbounded values / offsets / both modes): 
               "hand-written one-bit model of _mk_palette, C11/Palette.v). "
               "Partial / tested only: atoms are opaque in the reader, so 'str(number) and the literals are read back "
               "as the same number / constant' and the injectivity of tree_of are trusted to json.loads / "
-              "ast.literal_eval and checked by the oracle on every generated case (~3240 quick, ~32500 thorough); "
+              "ast.literal_eval and checked by the oracle on every generated case (~1270 quick, ~23350 thorough); "
               "float dict keys and non-JSON objects are outside the model (oracle only).  "
               "Tested only (the model is a pure function of mode and value, so it has nothing to say about object "
               "identity or consumption order): that the implementation's lines are the same however the result is "
